@@ -8,6 +8,14 @@ def vf_jobs(tier):
     J.append(Job('F-io','vf/f_io.c',defs=['-DENV_BUDGET=4'],unwind=10,unwindset=[('env_fill_page',None,28)],object_bits=12,
         witnesses=['data read','seek failed','seek ok','page found','end of data'],models=ENV,tags=['C03','C10','C12'],
         functions=['_get_data','_seek_helper','_get_next_page'],bounds='<=4 framing/read events per call; offsets < 2^31; any read sizes 0..2048, any errno, seek may fail'))
+    nl=2 if q else 3
+    J.append(Job('F-fetch','vf/f_fetch.c',defs=['-DENV_BUDGET=%d'%(4 if q else 6),'-DNL=%d'%nl],cuts={'vorbisfile.c':['_get_next_page','_fetch_headers']},unwind=(4 if q else 6)+3,unwindset=[('env_fill_page',None,28)],object_bits=12,
+        witnesses=['link changed','position set from a granule position','packet processed','streaming handle'],models=ENV,tags=['C03','C07','C09'],
+        functions=['_fetch_and_process_packet','_make_decode_ready','_decode_clear'],bounds='<=%d links, <=%d framing events per call; arbitrary V_vf state'%(nl,4 if q else 6),weight=3))
+    J.append(Job('F-halfrate','vf/f_halfrate.c',defs=['-DNL=3'],cuts={'vorbisfile.c':['ov_pcm_seek']},unwind=5,object_bits=12,
+        witnesses=['refused','accepted','re-seek'],models=ENV,tags=['C20','C03'],functions=['ov_halfrate','ov_halfrate_p'],bounds='<=3 links, any subset refusing, any prior state'))
+    J.append(Job('F-crosslap','vf/f_crosslap.c',cuts={'vorbisfile.c':['_ov_initset','_ov_initprime','_ov_getlap','_ov_splice']},unwind=5,object_bits=12,
+        witnesses=['rejected','priming failed','spliced with differing half-rate flags'],models=ENV,tags=['C19','C03'],functions=['ov_crosslap','ov_info','ov_halfrate_p'],bounds='two single-link handles, short blocks 64..4096, channels 1..3'))
     for nm,d in (('F-prevserial',[]),('F-prevpage',['-DPLAIN'])):
         J.append(Job(nm,'vf/f_prevpage.c',defs=d,cuts={'vorbisfile.c':['_seek_helper','_get_next_page']},unwind=10,unwindset=[('env_fill_page',None,28)],object_bits=12,
             witnesses=['page found','error under persisting end of data'],models=ENV+['recurrence (lasso) check in the _seek_helper contract'],tags=['C03','C12'],
